@@ -185,11 +185,11 @@ def step (s : S) (line : String) : S × String :=
     | _, _, _ => (s, "bad-op")
   | "comment" :: _ =>
     match s.a, argStr? ws "v" with
-    | some m, some v => ({ s with a := some { m with comment := m.comment ++ [v] } }, "ok")
+    | some m, some v => ({ s with a := some (addComment m v) }, "ok")
     | _, _ => (s, "bad-op")
   | "gf" :: _ =>
     match s.a, argStr? ws "tag", argStr? ws "v" with
-    | some m, some t, some v => ({ s with a := some { m with gf := m.gf ++ [(t, v)] } }, "ok")
+    | some m, some t, some v => ({ s with a := some (addGF m t v) }, "ok")
     | _, _, _ => (s, "bad-op")
   | "gs" :: _ =>
     match s.a, argStr? ws "tag", argStr? ws "v", argNat? ws "i" with
